@@ -144,10 +144,12 @@ static void op_bn_rand_mod(int argc, char **argv) {
 }
 
 #include "ops_md2.inc"
+#include "ops_md3.inc"
 
 const op_t ops_md[] = {
 	{"md_map", op_md_map}, {"md_hmac", op_md_hmac}, {"md_kdf", op_md_kdf}, {"md_mgf", op_md_kdf},
 	{"md_xmd", op_md_xmd}, {"drbg", op_drbg}, {"bn_rand", op_bn_rand}, {"bn_rand_mod", op_bn_rand_mod},
 	MD2_OPS
+	MD3_OPS
 	{NULL, NULL}
 };
